@@ -45,8 +45,8 @@ ASSUMPTIONS = [
     "stopping inequalities are the ones documented in the two _solve methods, recomputed from convergence_history and the options",
 ]
 FLOORS = {
-    "quick": {"verbose_runs": 50, "frontend_calls_in_a_row": 80, "mass_balance": 1500, "distance_is_cost_of_flux": 1500, "status_honest": 400, "fault:not_converged": 2000, "fault:last_valid_iterate": 2000, "fault:depth:backend": 1000, "fault:depth:after_update": 1000, "fault:depth:backend_returns_nan": 1000, "second_pair_on_same_object": 150, "lab_scale_cg_relative_tolerance_only": 10, "masses_as_uint8_images": 60, "monitoring_active": 1500},
-    "thorough": {"verbose_runs": 400, "frontend_calls_in_a_row": 600, "mass_balance": 12000, "distance_is_cost_of_flux": 12000, "status_honest": 3800, "fault:not_converged": 16000, "fault:last_valid_iterate": 16000, "fault:depth:backend": 8000, "fault:depth:after_update": 8000, "fault:depth:backend_returns_nan": 8000, "second_pair_on_same_object": 1500, "lab_scale_cg_relative_tolerance_only": 100, "masses_as_uint8_images": 600, "monitoring_active": 12000},
+    "quick": {"grid_with_scalar_voxel_size": 40, "verbose_runs": 50, "frontend_calls_in_a_row": 80, "mass_balance": 1500, "distance_is_cost_of_flux": 1500, "status_honest": 400, "fault:not_converged": 2000, "fault:last_valid_iterate": 2000, "fault:depth:backend": 1000, "fault:depth:after_update": 1000, "fault:depth:backend_returns_nan": 1000, "second_pair_on_same_object": 150, "lab_scale_cg_relative_tolerance_only": 10, "masses_as_uint8_images": 60, "monitoring_active": 1500},
+    "thorough": {"grid_with_scalar_voxel_size": 400, "verbose_runs": 400, "frontend_calls_in_a_row": 600, "mass_balance": 12000, "distance_is_cost_of_flux": 12000, "status_honest": 3800, "fault:not_converged": 16000, "fault:last_valid_iterate": 16000, "fault:depth:backend": 8000, "fault:depth:after_update": 8000, "fault:depth:backend_returns_nan": 8000, "second_pair_on_same_object": 1500, "lab_scale_cg_relative_tolerance_only": 100, "masses_as_uint8_images": 600, "monitoring_active": 12000},
 }
 SHARD_TIMEOUT = {"quick": 1500, "thorough": 6000}
 
@@ -123,6 +123,11 @@ def run_shard(spec, R):
             # millimetre voxels (right-hand sides of tiny norm) with only a relative tolerance requested: cg's
             # documented absolute tolerance default is 0, so the relative one decides
             h = [x * 1e-3 for x in h]
+        scalar_grid = c["id"] % 9 == 5
+        if scalar_grid:
+            # cubic voxels, the grid given the documented scalar voxel size (one number for all axes)
+            h = [h[0]] * dim
+            R.count("grid_with_scalar_voxel_size")
         a, b = wass.mass_pair(rng, shape, c["mass"])
         m1, m2 = wass.images(darsia, a, b, h)
         if c["id"] % 5 == 2 and float(min(a.min(), b.min())) >= 0 and float(max(a.max(), b.max())) <= 255:
@@ -173,7 +178,7 @@ def run_shard(spec, R):
 
         def build(fail_at=None, deep=False):
             opt = wass.make_options(darsia, c["method"], c["l1"], c["mob"], formulation, backend, c["aa"], num_iter, extra)
-            grid = darsia.generate_grid(m1)
+            grid = darsia.Grid(shape, float(h[0])) if scalar_grid else darsia.generate_grid(m1)
             w1 = wass.solver_class(darsia, c["method"])(grid, weight_img, opt)
             return w1, wass.Capture(w1, fail_at=fail_at, deep=deep, fault_kind=c["id"] + (fail_at or 0)), opt
 
@@ -323,7 +328,7 @@ def run_shard(spec, R):
             opt2 = dict(opt)
             opt2["return_info"] = False
             opt2["return_status"] = True
-            w2 = wass.solver_class(darsia, c["method"])(darsia.generate_grid(m1), weight_img, opt2)
+            w2 = wass.solver_class(darsia, c["method"])(darsia.Grid(shape, float(h[0])) if scalar_grid else darsia.generate_grid(m1), weight_img, opt2)
             ok, rs = R.guarded("solve_status", lambda: seeded(lambda: w2(m1, m2)))
             if ok:
                 rel = 1e-7 if (backend in ("amg", "cg") and M.num_cells > 99) else 0.0  # multilevel set-up is randomised (pyamg)
